@@ -25,7 +25,7 @@ RULE = ("one run = one bring-up of the real manager process for one configuratio
         "EXIT {signer, bootloader, ui-heartbeat, gone longer than the wait}; enumerated: the full "
         "product of the enum dimensions with versions at 5.4.1; seeded: everything incl. version grid; "
         "non-trivial = at least one APDU was exchanged; distinct = the configuration tuple")
-TIERS = {"quick": {"runs": 9000, "wall": 150}, "thorough": {"runs": 400000, "wall": 2400}}
+TIERS = {"quick": {"runs": 60000, "wall": 240}, "thorough": {"runs": 1500000, "wall": 3000}}
 EXHAUSTIVE = {"quick": False, "thorough": False}
 MUTANT_RUNS = 4000
 MUTANT_WALL = 90
